@@ -321,6 +321,12 @@ V('M-required-weaker', ['C10'], ('C10.req', 'A6.spec'), BD, "            if name
 V('M-add-dedupe', ['C14', 'C10'], 'C14.vmap', CO, "    def __add__(self, value):\n        return self._derive(self._values + (value,))", "    def __add__(self, value):\n        if value in self._values:\n            return self\n\n        return self._derive(self._values + (value,))")
 
 
+
+V('M-range-open', ['C14'], 'C14.denote', CO, "        if value < self.start or value > self.stop:", "        if value <= self.start or value > self.stop:")
+V('M-size-open', ['C14'], 'C14.denote', CO, "        if valueSize < self.start or valueSize > self.stop:", "        if valueSize < self.start or valueSize >= self.stop:")
+V('M-union-all', ['C14'], 'C14.denote', CO, "            except error.ValueConstraintError:\n                pass\n            else:\n                return", "            except error.ValueConstraintError:\n                break\n            else:\n                return")
+V('M-optional-only', ['C01', 'C02', 'C09', 'C10'], ('A6.optdef', 'A6.spec'), 'pyasn1/type/namedtype.py', "            if namedType.isOptional or namedType.isDefaulted:\n                partialAmbiguousTypes = (namedType,) + partialAmbiguousTypes", "            if namedType.isOptional:\n                partialAmbiguousTypes = (namedType,) + partialAmbiguousTypes")
+
 # --------------------------------------------------------------------------- runner
 
 def _copy_tree(repo, dest):
